@@ -37,6 +37,8 @@ def shapes(tier):
                     out.append(dict(part='deletions', spec=i, kind=kind, rows=cmb))
         for n in (1, 2):
             out.append(dict(part='edges', spec=i, n=n))
+            if n == 1 or tier == 'thorough':      # two records: 27 000 paths, 14 minutes
+                out.append(dict(part='edge_deletion_records', spec=i, n=n))
     return out
 
 
@@ -280,6 +282,97 @@ SRC_ENTITY = z3.Function('entity_of_stored_row', A, A)
 SRC_EXISTS = z3.Function('row_is_stored', A, z3.BoolSort())
 
 
+EDGE_STORED = z3.Function('reference_is_stored', A, A, A, z3.BoolSort())      # (src, label, dest)
+EDGE_AUTHOR = z3.Function('author_of_stored_reference', A, A, A, A)
+SRC_HAS_ROOM = z3.Function('stored_row_has_a_room', A, z3.BoolSort())
+
+
+def reader_stubs(st):
+    """the reader connection handed to closures: SELECT <cols> FROM _node|_edge WHERE col=? AND ... answered from uninterpreted facts about what is stored"""
+    import re as _re
+
+    def prepare(ctx_, args, ci, dt):
+        sql = deref(args[1])
+        text = ' '.join(sql.lit.decode().split()) if isinstance(sql, S) and sql.lit is not None else ''
+        m_ = _re.match(r'SELECT (.*?) FROM (_node|_edge) WHERE (.*)$', text, _re.I)
+        if not m_:
+            raise Unsupported('reader SQL not modelled: %s' % text[:120])
+        select = [c.strip() for c in m_.group(1).split(',')]
+        table = m_.group(2)
+        conds = [c.strip() for c in _re.split(r'\s+AND\s+', m_.group(3), flags=_re.I)]
+        cols = []
+        for c in conds:
+            mm = _re.match(r'^(\w+)\s*=\s*\?$', c)
+            if not mm:
+                raise Unsupported('reader SQL condition not modelled: %s' % c)
+            cols.append(mm.group(1))
+        allowed = ('id', '_entity', 'room_id') if table == '_node' else ('src', 'src_entity', 'label', 'dest', 'cdate')
+        if any(c not in allowed for c in cols):
+            raise Unsupported('reader SQL condition not modelled: %s' % text[:120])
+        st.setdefault('sql', []).append(text)
+        return ok(Opaque('statement', dict(table=table, select=select, cols=cols)))
+
+    def query_row(ctx_, args, ci, dt):
+        stt = deref(args[0]).data
+        params = args[1]
+        vals = [deref(c.v) for c in params.fields] if isinstance(params, Struct) else [deref(params)]
+        if len(vals) != len(stt['cols']):
+            raise Unsupported('parameter count does not match the statement')
+        byc = dict(zip(stt['cols'], vals))
+        norow = err(Enum('Error', -1, 'QueryReturnedNoRows', []))
+        if stt['table'] == '_node':
+            if 'id' not in byc:
+                raise Unsupported('lookup in _node without the row id')
+            ida = byc['id'].as_atom()
+            cond = [SRC_EXISTS(ida)]
+            if 'room_id' in byc:
+                cond.append(z3.And(SRC_HAS_ROOM(ida), SRC_ROOM(ida) == byc['room_id'].as_atom()))
+            if '_entity' in byc:
+                cond.append(SRC_ENTITY(ida) == byc['_entity'].as_atom())
+            if not ctx_.branch(z3.And(*cond)):
+                return norow
+            row = []
+            for c in stt['select']:
+                if c == '1':
+                    row.append(Int(64, True, 1))
+                elif c == 'room_id':
+                    row.append(some(S(atom=SRC_ROOM(ida), n=16)) if ctx_.branch(SRC_HAS_ROOM(ida)) else none())
+                elif c == 'id':
+                    row.append(byc['id'])
+                else:
+                    raise Unsupported('column %s of _node is not modelled' % c)
+        else:
+            if not all(k in byc for k in ('src', 'label', 'dest')):
+                raise Unsupported('lookup in _edge without src / label / dest')
+            key = (byc['src'].as_atom(), byc['label'].as_atom(), byc['dest'].as_atom())
+            if not ctx_.branch(EDGE_STORED(*key)):
+                return norow
+            row = []
+            for c in stt['select']:
+                if c == 'verifying_key':
+                    row.append(S(atom=EDGE_AUTHOR(*key), n=33))
+                elif c == '1':
+                    row.append(Int(64, True, 1))
+                else:
+                    raise Unsupported('column %s of _edge is not modelled' % c)
+        return ctx_.call_value(args[2], [Ref(Cell(Opaque('row', row)))])
+
+    def row_get(ctx_, args, ci, dt):
+        row = deref(args[0]).data
+        return ok(clone_val(row[ctx_.concretize_int(args[1], 'column')]))
+
+    def optional(ctx_, args, ci, dt):
+        r = args[0]
+        if r.variant == 0:
+            return ok(some(r.fields[0].v))
+        e = r.fields[0].v
+        if isinstance(e, Enum) and e.vname == 'QueryReturnedNoRows':
+            return ok(none())
+        return r
+    return {'Connection::prepare_cached': prepare, 'Connection::prepare': prepare, 'CachedStatement::query_row': query_row, 'Statement::query_row': query_row,
+            'Row::get': row_get, '<Result as OptionalExtension>::optional': optional, 'OptionalExtension::optional': optional}
+
+
 def explore_edges(ctx, shape, tier, report):
     """the whole ingestion of received references: GraphDatabase::add_edges (name lookup, and whatever it asks the reader connection)
     -> AuthorisationMessage::AddEdges -> the AddEdges arm of process_message -> what reaches the writer"""
@@ -328,53 +421,7 @@ def explore_edges(ctx, shape, tier, report):
     hooks[ctx.method('DataModel', 'name_for').name] = name_for
     st = {}
 
-    # the reader connection: one kind of statement is understood, an existence test on _node by columns
-    def prepare(ctx_, args, ci, dt):
-        sql = deref(args[1])
-        text = ' '.join(sql.lit.decode().split()) if isinstance(sql, S) and sql.lit is not None else ''
-        m_ = _re.match(r'SELECT .* FROM _node WHERE (.*)$', text, _re.I)
-        if not m_:
-            raise Unsupported('reader SQL not modelled: %s' % text[:120])
-        cols = [c.split('=')[0].strip() for c in _re.split(r'\s+AND\s+', m_.group(1), flags=_re.I)]
-        if any(c not in ('id', '_entity', 'room_id') for c in cols):
-            raise Unsupported('reader SQL condition not modelled: %s' % text[:120])
-        st.setdefault('sql', []).append(text)
-        return ok(Opaque('statement', cols))
-
-    def query_row(ctx_, args, ci, dt):
-        cols = deref(args[0]).data
-        params = args[1]
-        vals = [deref(c.v) for c in params.fields] if isinstance(params, Struct) else [deref(params)]
-        if len(vals) != len(cols):
-            raise Unsupported('parameter count does not match the statement')
-        byc = dict(zip(cols, vals))
-        if 'id' not in byc:
-            raise Unsupported('existence test without the row id')
-        ida = byc['id'].as_atom()
-        cond = [SRC_EXISTS(ida)]
-        if 'room_id' in byc:
-            cond.append(SRC_ROOM(ida) == byc['room_id'].as_atom())
-        if '_entity' in byc:
-            cond.append(SRC_ENTITY(ida) == byc['_entity'].as_atom())
-        if ctx_.branch(z3.And(*cond)):
-            row = Ref(Cell(Opaque('row', [Int(64, True, 1)])))
-            return ctx_.call_value(args[2], [row])
-        return err(Enum('Error', -1, 'QueryReturnedNoRows', []))
-
-    def row_get(ctx_, args, ci, dt):
-        row = deref(args[0]).data
-        return ok(clone_val(row[ctx_.concretize_int(args[1], 'column')]))
-
-    def optional(ctx_, args, ci, dt):
-        r = args[0]
-        if r.variant == 0:
-            return ok(some(r.fields[0].v))
-        e = r.fields[0].v
-        if isinstance(e, Enum) and e.vname == 'QueryReturnedNoRows':
-            return ok(none())
-        return r
-    stubs = {'Connection::prepare_cached': prepare, 'Connection::prepare': prepare, 'CachedStatement::query_row': query_row, 'Statement::query_row': query_row,
-             'Row::get': row_get, '<Result as OptionalExtension>::optional': optional, 'OptionalExtension::optional': optional}
+    stubs = reader_stubs(st)
     saved_send = ctx.models.get('Sender::send')
 
     def reply_send(ctx_, args, ci, dt):
@@ -446,17 +493,17 @@ def explore_edges(ctx, shape, tier, report):
         if len(specs) == 1 and report.want_sample(bool(forwarded)):
             sp = specs[0]
             # replayable instances: the name lookup succeeds and the source row exists, in the synchronised room or in another one
-            ms = ctx.check_sat(zand(SRC_EXISTS(sp['src'].as_atom()), SRC_ENTITY(sp['src'].as_atom()) == sp['short'].as_atom()))
+            ms = ctx.check_sat(zand(SRC_EXISTS(sp['src'].as_atom()), SRC_HAS_ROOM(sp['src'].as_atom()), SRC_ENTITY(sp['src'].as_atom()) == sp['short'].as_atom()))
             if ms is not None:
                 ev = lambda t: z3.is_true(ms.eval(zb(t), model_completion=True))
                 sc = dict(kind='received_edge_foreign_source', property='C02',
                           author_has_right=ev(granted_in(rooms_ev, room, sp['author'], sp['entity'], sp['cdate'], 'self')),
-                          source_in_room=ev(SRC_ROOM(sp['src'].as_atom()) == room.as_atom()), expect=dict(stored=bool(forwarded)))
+                          source_in_room=ev(zand(SRC_HAS_ROOM(sp['src'].as_atom()), SRC_ROOM(sp['src'].as_atom()) == room.as_atom())), expect=dict(stored=bool(forwarded)))
                 report.sample(sc)
         for sp in specs:
             is_fwd = z3.BoolVal(any(label_of(f) == label_of(sp['edge']) for f in forwarded))
             right = granted_in(rooms_ev, room, sp['author'], sp['entity'], sp['cdate'], 'self')
-            in_room = zand(SRC_EXISTS(sp['src'].as_atom()), SRC_ROOM(sp['src'].as_atom()) == room.as_atom())
+            in_room = zand(SRC_EXISTS(sp['src'].as_atom()), SRC_HAS_ROOM(sp['src'].as_atom()), SRC_ROOM(sp['src'].as_atom()) == room.as_atom())
             m = ctx.check_sat(zand(is_fwd, znot(right)))
             if m is not None:
                 info['culprit'] = sp
@@ -493,6 +540,185 @@ def explore_edges(ctx, shape, tier, report):
             ctx.models['Sender::send'] = saved_send
 
 
+def explore_edge_deletion_records(ctx, shape, tier, report):
+    """the whole ingestion of received reference-deletion records: GraphDatabase::delete_edges (name lookup, the closure run on the reader
+    connection: EdgeDeletionEntry::with_source_authors) -> AuthorisationMessage::DeleteEdges -> validate_edge_deletions -> the write message"""
+    from mirsym.models import SegmentEnd
+    spec1, spec2 = SPECS[tier][shape['spec']]
+    pm = ctx.method('AuthorisationService', 'process_message')
+    delete_edges = ctx.method('GraphDatabase', 'delete_edges')
+    events = []
+    hooks = {}
+    st = {}
+
+    def writer_send(ctx_, args):
+        events.append(('write', args[1]))
+        return Opaque('ready-future', ok(UNIT))
+    hooks[ctx.method('BufferedDatabaseWriter', 'send').name] = writer_send
+
+    def auth_send(ctx_, args):
+        events.append(('auth', args[1]))
+        return Opaque('ready-future', ok(UNIT))
+    hooks[ctx.method('AuthorisationService', 'send').name] = auth_send
+
+    def auth_send_blocking(ctx_, args):
+        events.append(('auth', args[1]))
+        return ok(UNIT)
+    hooks[ctx.method('AuthorisationService', 'send_blocking').name] = auth_send_blocking
+
+    def reader_send_async(ctx_, args):
+        ctx_.call_value(args[1], [Ref(Cell(Opaque('connection')))])
+        return Opaque('ready-future', ok(UNIT))
+    hooks[ctx.method('DatabaseReader', 'send_async').name] = reader_send_async
+
+    def name_for(ctx_, args):
+        short = deref(args[1])
+        for k, v in st['shorts']:
+            if s_eq(k, short) is True:
+                return some(clone_val(v))
+        raise Unsupported('name_for on a short name the driver did not supply')
+    hooks[ctx.method('DataModel', 'name_for').name] = name_for
+    stubs = reader_stubs(st)
+    saved_send = ctx.models.get('Sender::send')
+
+    def reply_send(ctx_, args, ci, dt):
+        events.append(('reply', args[1]))
+        return ok(UNIT)
+
+    def path(ctx):
+        w = World(ctx)
+        del events[:]
+        st.clear()
+        st['shorts'] = []
+        ctx.node_size_list = []
+        ra, rooms_ev, max_size, owner = mk_state(ctx, w, spec1, spec2)
+        entries, specs = [], []
+        for i in range(shape['n']):
+            author = w.atom('d%d_author' % i, KEYS, 'bytes', n=33)
+            ename = w.atom('d%d_entity' % i, ENTS, 'str')
+            ddate = w.i64('d%d_ddate' % i)
+            room = w.atom('d%d_room' % i, ROOMS, 'uid', n=16)
+            src = w.atom('d%d_src' % i, None, 'uid', n=16)
+            dest = w.atom('d%d_dest' % i, None, 'uid', n=16)
+            short = S(lit='s%d' % i, text=True)
+            label = S(lit='L%d' % i, text=True)
+            st['shorts'].append((short, ename))
+            e = w.struct('EdgeDeletionEntry', room_id=room, src=src, src_entity=short, dest=dest, label=label, cdate=w.i64('d%d_cdate' % i), deletion_date=ddate,
+                         verifying_key=author, signature=S(lit=b'sig'), entity_name=none())
+            entries.append(e)
+            specs.append(dict(author=author, entity=ename, ddate=ddate, room=room, src=src, dest=dest, short=short, label=label))
+        info = dict(part='edge_deletion_records', shape=shape, rooms=rooms_ev, specs=specs)
+        try:
+            fields = w.src.struct_fields('GraphDatabase')
+            vals = {f: Opaque('gdb-' + f) for f in fields}
+            vals['graph_database'] = Struct('Database', [Cell(Opaque('reader')), Cell(Opaque('writer'))])
+            vals['auth_service'] = Struct('AuthorisationService', [Cell(Opaque('auth-sender'))])
+            gdb = w.struct('GraphDatabase', **vals)
+            co = ctx.exec_fn(delete_edges, [Ref(Cell(gdb)), VecV([Cell(x) for x in entries]), Opaque('oneshot-sender')])
+            try:
+                ctx.poll(co)
+            except SegmentEnd:
+                pass
+            msgs = [e for e in events if e[0] == 'auth']
+            if len(msgs) != 1 or msgs[0][1].vname != 'DeleteEdges':
+                raise Inconclusive('delete_edges did not hand exactly one DeleteEdges message to the authorisation service')
+            co = ctx.exec_fn(pm, [msgs[0][1], Ref(Cell(ra), True), Ref(Cell(Opaque('database-writer'))), Ref(Cell(Opaque('event-service'))), Ref(Cell(Opaque('self-sender')))])
+            try:
+                ctx.poll(co)
+            except SegmentEnd:
+                pass
+        except Panic as p:
+            report.panic(ctx, w, p, info)
+            return
+        forwarded = []
+        for wv in [e for e in events if e[0] == 'write']:
+            m_ = wv[1]
+            if isinstance(m_, Enum) and m_.vname == 'DeleteEdges':
+                forwarded = [c.v for c in deref(m_.fields[0].v).elems]
+
+        def label_of(e):
+            return deref(w.field(e, 'EdgeDeletionEntry', 'label').v).lit
+        known = [sp['label'].lit for sp in specs]
+        if any(label_of(f) not in known for f in forwarded):
+            raise Inconclusive('a forwarded record is not one of the received ones: the driver cannot attribute it')
+        report.path(bool(forwarded))
+        report.witness('deletion-accepted' if forwarded else 'deletion-rejected')
+        info['forwarded'] = len(forwarded)
+        if len(specs) == 1 and report.want_sample(bool(forwarded)):
+            sp = specs[0]
+            key = (sp['src'].as_atom(), sp['label'].as_atom(), sp['dest'].as_atom())
+            # replayable instances: the reference is stored, written by the local user; its source row is stored in a room
+            ms = ctx.check_sat(zand(SRC_EXISTS(sp['src'].as_atom()), SRC_HAS_ROOM(sp['src'].as_atom()), SRC_ENTITY(sp['src'].as_atom()) == sp['short'].as_atom(),
+                                    EDGE_STORED(*key), EDGE_AUTHOR(*key) != sp['author'].as_atom()))
+            if ms is not None:
+                ev = lambda t: z3.is_true(ms.eval(zb(t), model_completion=True))
+                report.sample(dict(kind='received_edge_deletion_foreign_source', property='C02',
+                                   author_has_right=ev(granted_in(rooms_ev, sp['room'], sp['author'], sp['entity'], sp['ddate'], 'all')),
+                                   source_in_room=ev(SRC_ROOM(sp['src'].as_atom()) == sp['room'].as_atom()), expect=dict(deleted=bool(forwarded))))
+        for sp in specs:
+            is_fwd = z3.BoolVal(any(label_of(f) == sp['label'].lit for f in forwarded))
+            srca = sp['src'].as_atom()
+            key = (srca, sp['label'].as_atom(), sp['dest'].as_atom())
+            own = zand(EDGE_STORED(*key), EDGE_AUTHOR(*key) == sp['author'].as_atom())
+            need_all = zand(EDGE_STORED(*key), EDGE_AUTHOR(*key) != sp['author'].as_atom())
+            right = z3.If(need_all, granted_in(rooms_ev, sp['room'], sp['author'], sp['entity'], sp['ddate'], 'all'),
+                          granted_in(rooms_ev, sp['room'], sp['author'], sp['entity'], sp['ddate'], 'self'))
+            m = ctx.check_sat(zand(is_fwd, znot(right)))
+            if m is not None:
+                info['culprit'], info['problem'] = sp, 'no-right'
+                report.violation(ctx, m, 'edge-deletion-accepted-without-right', info)
+                return
+            foreign = zand(SRC_EXISTS(srca), SRC_ENTITY(srca) == sp['short'].as_atom(), zor(znot(SRC_HAS_ROOM(srca)), SRC_ROOM(srca) != sp['room'].as_atom()))
+            m = ctx.check_sat(zand(is_fwd, foreign))
+            if m is not None:
+                info['culprit'], info['problem'] = sp, 'source-row-in-another-room'
+                report.violation(ctx, m, 'edge-deletion-accepted-without-right', info)
+                return
+            if len(specs) == 1:
+                m = ctx.check_sat(zand(znot(is_fwd), right, znot(foreign)))
+                if m is not None:
+                    info['culprit'], info['problem'] = sp, 'refused-with-right'
+                    report.violation(ctx, m, 'edge-deletion-refused-although-granted', info)
+                    return
+
+    ctx.call_hooks.update(hooks)
+    ctx.stubs.update(stubs)
+    ctx.models['Sender::send'] = reply_send
+    try:
+        ctx.explore(path)
+    finally:
+        for k in hooks:
+            ctx.call_hooks.pop(k, None)
+        for k in stubs:
+            ctx.stubs.pop(k, None)
+        if saved_send is None:
+            ctx.models.pop('Sender::send', None)
+        else:
+            ctx.models['Sender::send'] = saved_send
+
+
+def scenario_edge_deletion_records(ctx, m, kind, info):
+    sc = dict(kind='received_edge_deletion_foreign_source', property='C02')
+    if kind == 'panic':
+        sc['expect'] = dict(result='panic')
+        return sc
+    if kind == 'sample':
+        sc['expect'] = {}
+        return sc
+    sc['problem'] = info['problem']
+    if info['problem'] == 'source-row-in-another-room':
+        sc['author_has_right'], sc['source_in_room'] = True, False
+        sc['expect'] = dict(deleted=True)
+        sc['what'] = ('a received deletion record of a reference is validated against the room it is stamped with only: whether the reference\'s SOURCE ROW is stored in that room '
+                      'is never looked up, so a member holding the all-rows right in room A deletes references of rows of a room it cannot write')
+    else:
+        sc['kind'] = 'received_edge_deletion_other'
+        sc['expect'] = {}
+        sc['what'] = 'DeleteEdges: a received deletion record is %s' % ('applied although its author lacks the right at its date' if info['problem'] == 'no-right' else 'refused although the author has the right')
+    sc['signature'] = 'edge-deletion:%s' % info['problem']
+    return sc
+
+
 def scenario_edges(ctx, m, kind, info):
     c = Concretizer(m)
     sc = dict(kind='received_edges', property='C02', rooms=[c.room(ev) for ev in info['rooms']], room=c.atom(info['room']),
@@ -519,8 +745,8 @@ def scenario_edges(ctx, m, kind, info):
 
 
 def explore(ctx, shape, tier, report):
-    return {'node': explore_node, 'deletions': explore_deletions, 'edges': explore_edges}[shape['part']](ctx, shape, tier, report)
+    return {'node': explore_node, 'deletions': explore_deletions, 'edges': explore_edges, 'edge_deletion_records': explore_edge_deletion_records}[shape['part']](ctx, shape, tier, report)
 
 
 def scenario(ctx, m, kind, info):
-    return {'node': scenario_node, 'deletions': scenario_deletions, 'edges': scenario_edges}[info['part']](ctx, m, kind, info)
+    return {'node': scenario_node, 'deletions': scenario_deletions, 'edges': scenario_edges, 'edge_deletion_records': scenario_edge_deletion_records}[info['part']](ctx, m, kind, info)
